@@ -176,6 +176,9 @@ func c04Run(t *testing.T, s *sim.Scn) *sim.Outcome {
 		c04CacheRun(t, int(cs), int(s.Cfg["firstsave"]%2), o)
 		return o
 	}
+	if s.Cfg["whole"] == 1 {
+		return c04WholeRun(t, s)
+	}
 	depth := int(s.Cfg["depth"])
 	if depth < 1 {
 		depth = 2
@@ -206,6 +209,9 @@ func c04Run(t *testing.T, s *sim.Scn) *sim.Outcome {
 }
 
 func c04Gen(r *rand.Rand, tier string) *sim.Scn {
+	if r.IntN(8) == 0 {
+		return c04WholeGen(r, tier)
+	}
 	s := &sim.Scn{Cfg: map[string]int64{"ih": 1, "depth": 2, "queue": 0}}
 	if r.IntN(4) == 0 {
 		s.Cfg["ih"] = 1 + r.Int64N(20)
